@@ -13,6 +13,13 @@ CHECKS = {
         technique="Coq proof (induction over block list and loop passes) + model/implementation correspondence",
     ),
 }
+CHECKS["C12"] = dict(
+    category="proof",
+    text="The python-name -> (C++ name, header, return type) table, the README's documented list and the name-resolution environment are regenerated from /repo on every run; Coq proves by computation on that finite table that every documented name resolves (as find_known_functions resolves it) to a row calling its cmath namesake, including <cmath>, typed double and callable with query expressions (C12_all_documented), plus dict semantics for every table (C12_last_mapping_wins) and the refutation for remquo (known finding). End-to-end traces run every documented name through all three backends, standalone and inside arithmetic, and compare the emitted call with the model's row.",
+    design_ref="5.12",
+    note="Trusted: Coq kernel incl. vm_compute; the fail-closed translator mathtable.py (literal table rows, textual normal form of add_function_mapping and find_known_functions.visit_Call, README regex, builtins' __module__ from the interpreter); the hand-written <cmath> signature table; what each std:: function computes (C library). Traces are tests.",
+    technique="Coq proof by computation over a table regenerated from source + end-to-end traces",
+)
 NOT_YET = {}
 
 def main():
